@@ -291,7 +291,7 @@ func initScenarios() {
 	addScenario("pD", false, []int{1, 2}, []int{5, 6, 7}, 5, 7)    // leaf exactly below / at the 32-byte embedding threshold
 	addScenario("pE", false, []int{0, 1, 2, 3, 4, 5, 6}, []int{1, 4}, 4, 4)
 	// secure trie; key indices 0..3 (hashed keys share 2 nibbles / 1 nibble / nothing with key 0)
-	addScenario("sA", true, []int{0, 1, 2, 3}, []int{1, 3}, 5, 5)
+	addScenario("sA", true, []int{0, 1, 2, 3}, []int{1, 3}, 4, 5)
 	addScenario("sB", true, []int{0, 1, 2}, []int{2, 4}, 5, 6)
 	sort.Strings(scenarioNames)
 }
